@@ -32,7 +32,8 @@ RULE = (
     "(anti-vacuity, reported). Non-trivial: a history in which request i is run at least twice with a different request "
     "in between. (d) one election with >20 reporting units and outlier models on, a bootstrap margin request and a "
     "conformal vote-count request run alternately on the SAME frame objects: each result equals the request's result on "
-    "fresh frames. Distinct = history shape (sequence of rule names and estimators)."
+    "fresh frames. (e) national summary after one bootstrap run: the same call twice gives the same table, and a level's "
+    "numbers are the same whether it is asked for together with other levels or alone on an identical client. Distinct = history shape (sequence of rule names and estimators)."
 )
 ASSUMPTIONS = [
     "bitwise comparison on canonicalised tables (numeric columns as float64, dtype not compared)",
@@ -43,8 +44,8 @@ FLOOR = {"quick": 15, "thorough": 100}
 
 def parts(tier):
     if tier == "quick":
-        return [{"name": "machine", "n": 64}, {"name": "subprocess", "n": 16}, {"name": "seed", "n": 32}, {"name": "frames", "n": 48}]
-    return [{"name": "machine", "n": 800}, {"name": "subprocess", "n": 240}, {"name": "seed", "n": 480}, {"name": "frames", "n": 800}]
+        return [{"name": "machine", "n": 64}, {"name": "subprocess", "n": 16}, {"name": "seed", "n": 32}, {"name": "frames", "n": 48}, {"name": "summary", "n": 64}]
+    return [{"name": "machine", "n": 800}, {"name": "subprocess", "n": 240}, {"name": "seed", "n": 480}, {"name": "frames", "n": 800}, {"name": "summary", "n": 1000}]
 
 
 def small_case(**kw):
@@ -349,7 +350,46 @@ def check_frames(case, ctx):
         ctx.nontrivial("frames|" + jhash([p["req"] for p in pool] + [list(case["order"])]), {"part": "frames", "order": list(case["order"]), "requests": [common.summarize_case(p)["request"] for p in pool]})
 
 
+# ---- (e) the national summary is a function of its arguments too --------------------------------------------------------
+SUMMARY_CASES = small_case(estimators=("bootstrap",), min_nonrep=3, max_states=3, lambdas=(0, 0.1), Bs=(10, 20, 40), max_alphas=2)
+
+
+def check_summary(case, ctx):
+    """After one run: the same summary call twice gives the same table; a level's numbers do not depend on which other
+    levels were asked for in the same or in an earlier call (compared with a second, identical client)."""
+    ctx.evaluated()
+    c = copy.deepcopy(case)
+    c["req"]["aggregates"] = (["postal_code", "district"] if c["office"] == "H" else ["postal_code"]) + ["unit"]
+    r1, r2 = run_case(c), run_case(copy.deepcopy(c))
+    if not (r1.ok and r2.ok):
+        return
+    levels = sorted(set(c["req"]["alphas"]) | {0.5, 0.9})
+    try:
+        a1 = r1.client.get_national_summary_votes_estimates(None, 0, levels).to_dict("list")
+        a2 = r1.client.get_national_summary_votes_estimates(None, 0, levels).to_dict("list")
+        single = {}
+        for lv in reversed(levels):  # other client: one level per call, in another order
+            d = r2.client.get_national_summary_votes_estimates(None, 0, [lv]).to_dict("list")
+            single[lv] = (d["agg_pred"][0], d[f"lower_{lv}"][0], d[f"upper_{lv}"][0])
+    except Exception as e:
+        ctx.violation("exception", f"national summary: {type(e).__name__}: {e}", case, sig=exc_signature(e))
+        return
+    if a1 != a2:
+        ctx.violation("summary_differs", f"two consecutive summary calls with equal arguments: {a1} then {a2}", dict(case, replay_part="summary"), sig="summary_repeat")
+        return
+    for lv in levels:
+        got = (a1["agg_pred"][0], a1[f"lower_{lv}"][0], a1[f"upper_{lv}"][0])
+        if got != single[lv]:
+            ctx.violation("summary_differs", f"level {lv}: {got} when asked together with {levels}, {single[lv]} when asked alone on an identical client", dict(case, replay_part="summary"), sig="summary_level_context")
+            return
+    if any(a1[f"lower_{lv}"][0] != a1[f"upper_{lv}"][0] for lv in levels):
+        ctx.nontrivial("summary|" + jhash([c["req"], len(c["units"])]), {"part": "summary", "levels": levels, "table": {k: v[0] for k, v in a1.items()}})
+
+
 def run_part(name, seed, n, tier, ctx, si, sc):
+    if name == "summary":
+        hyp_run(SUMMARY_CASES, lambda case: check_summary(case, ctx), seed, n, tier)
+        return
     if name == "frames":
         hyp_run(_frames_strategy(), lambda case: check_frames(case, ctx), seed, n, tier)
         return
@@ -406,6 +446,8 @@ def replay(case, ctx):
             first.setdefault(i, key)
     elif case.get("historical") or "sub" in case:
         check_subprocess(case, ctx)
+    elif case.get("req", {}).get("pi") == "bootstrap" and case.get("replay_part") == "summary":
+        check_summary(case, ctx)
     else:
         check_seed(case, ctx)
 
